@@ -66,6 +66,45 @@ def optimisation_sensitive_sites():
     return sites
 
 
+IMPORT_FLAGS = [('-O',), ('-OO',), ('-bb',), ('-W', 'error'), ('-X', 'dev'),
+                ('-OO', '-bb', '-W', 'error')]
+# the interpreter settings the environment-sensitive tasks are repeated
+# under, each in its own child process
+ENV_CHILDREN = [
+    (('-bb',), 'str() of bytes is an error'),
+    (('-OO', '-bb'), 'asserts and docstrings stripped, str() of bytes is an '
+     'error'),
+]
+MODULES = ('pamqp', 'pamqp.common', 'pamqp.constants', 'pamqp.exceptions',
+           'pamqp.encode', 'pamqp.decode', 'pamqp.base', 'pamqp.commands',
+           'pamqp.body', 'pamqp.header', 'pamqp.heartbeat', 'pamqp.frame')
+
+
+def import_probe(flags):
+    """Import every module of the library in a fresh interpreter started
+    with the given flags. The parent imported them, so a failure is the
+    library's dependence on the interpreter setting. Returns None or what
+    went wrong."""
+    env = dict(os.environ)
+    env.pop('PYTHONOPTIMIZE', None)
+    env.pop('PYTHONWARNINGS', None)
+    try:
+        res = subprocess.run(
+            [sys.executable] + list(flags) +
+            ['-c', 'import sys; sys.path.insert(0, %r)\nimport %s' % (
+                runner.REPO, ', '.join(MODULES))],
+            capture_output=True, text=True, timeout=120, env=env,
+            cwd=runner.REPO)
+    except subprocess.TimeoutExpired:
+        return 'importing the library under python %s did not finish' % (
+            ' '.join(flags))
+    if res.returncode:
+        tail = (res.stderr.strip().splitlines() or ['?'])[-1]
+        return 'the library cannot be imported under python %s: %s' % (
+            ' '.join(flags), tail[:300])
+    return None
+
+
 def rerun_optimised(prop, tier, seed, flags=('-O',), subset=False):
     """The same check (or, with subset, the tasks the module names in
     env_tasks()) in a child interpreter started with other flags (-O: asserts
@@ -132,6 +171,22 @@ def main(argv=None):
                                      sys.argv[1:])
                 return res.returncode
             case = case['case']
+        if isinstance(case, dict) and case.get('python_flags'):
+            if not os.environ.get('MC_REPLAY_CHILD'):
+                res = subprocess.run(
+                    [sys.executable] + list(case['python_flags']) +
+                    ['-m', 'mc.cli'] + sys.argv[1:],
+                    env=dict(os.environ, MC_REPLAY_CHILD='1'))
+                return res.returncode
+            case = case['case']
+        if isinstance(case, dict) and case.get('import_probe'):
+            bad = import_probe(tuple(case['import_probe']))
+            if bad:
+                print('REPLAY property=%s still violates: %s' % (prop, bad))
+                return 1
+            print('REPLAY property=%s: no violation on the current tree'
+                  % prop)
+            return 0
         ctx = runner.Ctx(prop, args.tier, seed)
         mod.replay(case, ctx)
         if ctx.violations:
@@ -206,20 +261,43 @@ def main(argv=None):
         else:
             extras['python_O_rerun'] = ('not needed: no assert statement '
                                         'and no __debug__ in pamqp/*.py')
-        if hasattr(mod, 'env_tasks'):
-            # interpreter started with -bb (str() of a bytes object raises
-            # BytesWarning): the tasks that reach error paths and logging
-            viol, last, rc = rerun_optimised(prop, args.tier, seed,
-                                             flags=('-bb',), subset=True)
-            extras['python_bb_rerun'] = last[:300]
+        from concurrent.futures import ThreadPoolExecutor
+        with ThreadPoolExecutor(8) as tp:
+            probes = list(tp.map(import_probe, IMPORT_FLAGS))
+            children = []
+            if hasattr(mod, 'env_tasks'):
+                # the tasks that reach error paths, logging and warnings
+                # once more in interpreters started with other flags
+                children = list(tp.map(
+                    lambda fl: rerun_optimised(prop, args.tier, seed,
+                                               flags=fl[0], subset=True),
+                    ENV_CHILDREN))
+        extras['import_probes'] = {' '.join(f): (b or 'ok') for f, b in
+                                   zip(IMPORT_FLAGS, probes)}
+        for flags, bad in zip(IMPORT_FLAGS, probes):
+            if bad:
+                merged.violations.append({
+                    'fingerprint': 'import|' + ' '.join(flags),
+                    'message': bad, 'case': {'import_probe': list(flags)},
+                    'expected': 'imports as in a plain interpreter',
+                    'observed': bad})
+                merged.nviolations += 1
+        for (flags, what), (viol, last, rc) in zip(ENV_CHILDREN, children):
+            tag = 'python ' + ' '.join(flags)
+            extras.setdefault('python_flag_reruns', {})[tag] = last[:300]
+            if ' '.join(flags) == '-bb':
+                extras['python_bb_rerun'] = last[:300]
             if viol is None or rc == 2:
-                merged.errors.append('the rerun under python -bb failed: ' +
-                                     last[:300])
+                if not any(b for f, b in zip(IMPORT_FLAGS, probes)):
+                    merged.errors.append('the rerun under %s failed: %s' % (
+                        tag, last[:300]))
+                continue
             for v in viol or []:
-                v['fingerprint'] = 'python -bb|' + str(v['fingerprint'])
-                v['message'] = ('[interpreter started with -bb: str() of '
-                                'bytes is an error] ' + str(v['message']))
-                v['case'] = {'python_bb': True, 'case': v.get('case')}
+                v['fingerprint'] = tag + '|' + str(v['fingerprint'])
+                v['message'] = '[interpreter started with %s: %s] %s' % (
+                    ' '.join(flags), what, v['message'])
+                v['case'] = {'python_flags': list(flags),
+                             'case': v.get('case')}
                 merged.violations.append(v)
                 merged.nviolations += 1
     wall = time.time() - t0
